@@ -108,6 +108,11 @@ func genCaseC12(t *rapid.T) *c12Case {
 			base.Assign[i] = fam[n.Type]
 		}
 	}
+	if rapid.IntRange(0, 2).Draw(t, "refusedLoad") == 0 {
+		// a reload that validation refuses came before the requests (the root is as before, and must
+		// be as safe to share as before)
+		base.RefusedSDL = rapid.SampledFrom([]string{"type ZqEmptyRefused {}", "type ZqRefused { a: Int @skip(if: true) }\ninput ZqIn { q: ZqRefused }", "directive @zqd(p: Int = 1) on OBJECT\ntype ZqR @zqd(p: 2) { a: ZqNope }"}).Draw(t, "refusedDoc")
+	}
 	c := &c12Case{Base: base}
 	nReq := rapid.IntRange(4, 24).Draw(t, "nRequests")
 	// fields that no member of the Go type answers to: discovering that is a first-use path of its own
@@ -129,7 +134,7 @@ func genCaseC12(t *rapid.T) *c12Case {
 			c.Requests = append(c.Requests, c12Request{Text: genIntrospection(t, base.Schema, fmt.Sprintf("r%di", i))})
 			continue
 		}
-		p := exec.Profile{MaxDepth: rapid.IntRange(2, 4).Draw(t, fmt.Sprintf("r%ddepth", i)), Args: true, Abstract: hasAbstract}
+		p := exec.Profile{MaxDepth: rapid.IntRange(2, 4).Draw(t, fmt.Sprintf("r%ddepth", i)), Args: true, Abstract: hasAbstract, Dirs: rapid.Bool().Draw(t, fmt.Sprintf("r%ddirs", i))}
 		d, vars := exec.GenDocLabeled(t, base.Schema, p, false, fmt.Sprintf("r%d", i))
 		c.Requests = append(c.Requests, c12Request{Text: d.Render(hx.Layout{Mode: "single"}).Text, Op: d.Ops[0].Name, Vars: vars})
 	}
